@@ -68,6 +68,7 @@ class TreeScenario(explore.Scenario):
         w.cw = fakes.ClientWorld()
         w.T = make_class()
         w.exported = set()
+        w.again = set()      # paths whose object was replaced by another
         w.serial = 100
         w.cw.sent()
         return w
@@ -80,6 +81,10 @@ class TreeScenario(explore.Scenario):
         for i, p in enumerate(UNIVERSE):
             evs.append(('unexport', i) if p in w.exported
                        else ('export', i))
+            if p in w.exported and p not in w.again and \
+                    i in self.params.get('reexport', ()):
+                # another object exported at a path that is occupied
+                evs.append(('reexport', i))
         return evs
 
     def _do(self, w, ev):
@@ -87,9 +92,13 @@ class TreeScenario(explore.Scenario):
         if ev[0] == 'export':
             w.cw.conn.exportObject(w.T(p))
             w.exported.add(p)
+        elif ev[0] == 'reexport':
+            w.cw.conn.exportObject(w.T(p))
+            w.again.add(p)
         else:
             w.cw.conn.unexportObject(p)
             w.exported.discard(p)
+            w.again.discard(p)
         return p
 
     def advance(self, w, ev):
@@ -127,8 +136,13 @@ class TreeScenario(explore.Scenario):
         exp = sorted(w.exported)
         # the announcement
         sigs = w.cw.sent()
-        member = 'InterfacesAdded' if ev[0] == 'export' else \
+        member = 'InterfacesAdded' if ev[0] != 'unexport' else \
             'InterfacesRemoved'
+        if ev[0] == 'reexport' and len(sigs) == 2 and \
+                sigs[0]['fields'].get('member') == 'InterfacesRemoved' and \
+                sigs[0]['body'] and sigs[0]['body'][0] == p:
+            # saying first that the previous object went is fine
+            sigs = sigs[1:]
         ann = [m for m in sigs if m['type'] == 4
                and m['fields'].get('member') == member]
         other = [m for m in sigs if m not in ann]
@@ -142,7 +156,7 @@ class TreeScenario(explore.Scenario):
                 else set(second.keys())
             if 'org.ex.T' not in names:
                 ok = False
-            if ev[0] == 'export' and isinstance(second, dict):
+            if ev[0] != 'unexport' and isinstance(second, dict):
                 props = second.get('org.ex.T')
                 if props != {'Name': p, 'Count': len(p)}:
                     ok = False
@@ -253,7 +267,7 @@ class TreeScenario(explore.Scenario):
 
     def canon(self, w):
         if self.params.get('dedup', True):
-            return tuple(sorted(w.exported))
+            return (tuple(sorted(w.exported)), tuple(sorted(w.again)))
         return None
 
     def nontrivial(self, hist):
@@ -278,13 +292,23 @@ def run(ctx):
         'iff exported) and GetManagedObjects (exactly the exported paths '
         'strictly beneath, each with its interfaces and readable properties; '
         'UnknownObject when unexported); each event must emit exactly one '
-        'InterfacesAdded / InterfacesRemoved for that path'
+        'InterfacesAdded / InterfacesRemoved for that path. A second pass '
+        'adds the event "export another object at an occupied path"'
         % (UNIVERSE, 3 if ctx.quick else 5))
-    ctx.assumptions = ['export is only called for a path not currently '
-                       'exported, unexport only for an exported one']
+    ctx.assumptions = ['unexport is only called for an exported path; an '
+                       'export at an occupied path (a different object) '
+                       'leaves the path exported and announces the object '
+                       '(an InterfacesRemoved for the previous one first is '
+                       'accepted); which of the two objects then answers is '
+                       'not judged']
     explore.explore(ctx, TreeScenario, {'dedup': True}, max_depth=20,
                     label='deduplicated on the exported set')
-    explore.explore(ctx, TreeScenario, {'dedup': False},
+    explore.explore(ctx, TreeScenario,
+                    {'dedup': True, 'reexport': (1, 2, 4) if ctx.quick
+                     else tuple(range(7))}, max_depth=30,
+                    label='with a second object exported at an occupied path')
+    explore.explore(ctx, TreeScenario,
+                    {'dedup': False, 'reexport': tuple(range(7))},
                     max_depth=3 if ctx.quick else 5,
                     label='all histories, no deduplication')
     ctx.bounds = {'paths': len(UNIVERSE)}
